@@ -200,7 +200,9 @@ class Scenario:
                 deliver(sock, good[:lo + 1], d + script.delay(i, "e", req), "frag1-dup")
             elif name in ("two_fragments", "lone_fragment"):
                 lo = 9 if tcp else 5
-                if self.split_choices == "all":
+                if isinstance(self.split_choices, int):
+                    s = self.split_choices
+                elif self.split_choices == "all":
                     s = script.small(f"split{req}_{i}", lo, len(good) - 1)
                 else:
                     s = (lo, len(good) - 2)[script.small(f"split{req}_{i}", 0, 1)]
